@@ -22,7 +22,7 @@ fn gen(rng: &mut Rng, i: usize) -> Case {
     } as usize;
     let mut c = Case::new(&["chansrc", &cap.to_string()]);
     // a few deliberately blocking cases: model and code must agree on `blocked`
-    let blocking = i % 50 == 7 || i % 50 == 31;
+    let blocking = i % 50 == 7;
     let mut blocks_left = if blocking { 1 + rng.below(2) } else { 0 };
     let mut v = (i as i64 % 1000) * 100;
     // generator-side mirror of "would this `next` block": queue length, open, last returned was FB
